@@ -574,12 +574,16 @@ class TracedRace:
             if not en:
                 break
             for dec in en:
-                if dec in self.w.enabled() and not self.done():
-                    self.do(dec)
+                # a sweep delivers EVERYTHING that was queued on a channel when it started (a join-point message may sit behind
+                # any number of sample shipments), and takes every other enabled decision once
+                n = len(self.w.sim.chan.get((dec[1], dec[2]), ())) if dec[0] == "deliver" else 1
+                for _ in range(max(n, 1)):
+                    if dec in self.w.enabled() and not self.done():
+                        self.do(dec)
             nsig = self.control_signature()
             same = same + 1 if nsig == sig else 0
             sig = nsig
-            if same >= 3:
+            if same >= 4:
                 self.hang = True
                 break
             if len(self.events) > 6 * max_events:
